@@ -31,7 +31,7 @@ TRUSTED = [
 
 K_DIE, K_NET = 10e-12, 1e-12
 
-KINDS = ["netlist", "die", "alloc", "sat", "strop", "legal"]
+KINDS = ["netlist", "die", "alloc", "alloctext", "sat", "strop", "legal"]
 
 
 # ------------------------------------------------------------------ design generators (pure data)
@@ -138,6 +138,24 @@ def gen_alloc(rng: random.Random, s: float, defect: bool, L: int = 10) -> dict:
             "W": d["W"], "H": d["H"], "rects": d["rects"] + n["rects"]}
 
 
+def gen_alloctext(rng: random.Random, s: float, defect: bool, L: int = 10) -> dict:
+    """an allocation document over a regular grid (the usual regular-grid flow: designs share cell descriptors) plus a
+    netlist whose block B sits exactly on one cell; `kindB` says whether B is fixed (then it owns its cell) or hard."""
+    nx, ny = rng.randint(2, 4), rng.randint(2, 3)
+    cw, ch = rng.choice([1, 2, 1.5]) * s, rng.choice([1, 2]) * s
+    cells = [((i + 0.5) * cw, (j + 0.5) * ch, cw, ch) for i in range(nx) for j in range(ny)]
+    bx, by, bw, bh = rng.choice(cells)
+    kindB = rng.choice(["fixed", "hard"])
+    rows = []
+    for (x, y, w, h) in cells:
+        rows.append(f"[[{fmt(x)}, {fmt(y)}, {fmt(w)}, {fmt(h)}], {{S0: {fmt(rng.choice([0.2, 0.4, 0.5]))}}}]")
+    atext = "[" + ",\n ".join(rows) + "]\n"
+    ntext = ("Modules: {\n" + f"  B: {{{kindB}: true, rectangles: [[{fmt(bx)}, {fmt(by)}, {fmt(bw)}, {fmt(bh)}]]}},\n"
+             + f"  S0: {{area: {fmt(2 * cw * ch)}, center: [{fmt(nx * cw / 2)}, {fmt(ny * ch / 2)}]}}\n}}\nNets: [[B, S0]]\n")
+    return {"kind": "alloctext", "scale": s, "alloc": atext, "netlist": ntext, "thr": rng.choice([0.5, 0.6, 0.9]),
+            "rects": [[(x, y, w, h) for (x, y, w, h) in cells]], "proposal": min(bw, bh, math.sqrt(2 * cw * ch)) * K_NET}
+
+
 def gen_sat(rng: random.Random, s: float, defect: bool, L: int = 10) -> dict:
     vs = ["a", "b", "c", "d", "e"][: rng.randint(2, 5)]
     cons = []
@@ -164,7 +182,7 @@ def gen_legal(rng: random.Random, s: float, defect: bool, L: int = 10) -> dict:
             "proposal": n["proposal"]}
 
 
-GEN = {"netlist": gen_netlist, "die": gen_die, "alloc": gen_alloc, "sat": gen_sat, "strop": gen_strop, "legal": gen_legal}
+GEN = {"alloctext": gen_alloctext, "netlist": gen_netlist, "die": gen_die, "alloc": gen_alloc, "sat": gen_sat, "strop": gen_strop, "legal": gen_legal}
 
 
 # ------------------------------------------------------------------ running an operation (child processes only)
@@ -231,6 +249,21 @@ def run_op(d: dict):
             return sorted([_num(v) for v in c.rect.vector_spec[:4]] + [c.rect.vector_spec[4], c.depth,
                           sorted([k, _num(v)] for k, v in c.alloc.items())] for c in al.allocations)
         return ["ok", must, cells(a), cells(a2), cells(a3)], nprop
+    if kind == "alloctext":
+        from frame.netlist.netlist import Netlist
+        from frame.allocation.allocation import Allocation
+        try:
+            n = Netlist(d["netlist"])
+            a = Allocation(d["alloc"])
+            a1 = a.initial_allocation(n, False)
+            must = a1.must_be_refined(d["thr"])
+            a2 = a1.refine(d["thr"], 1)
+        except AssertionError:
+            return ["rejected", "Assert"], None
+        def cells2(al):
+            return sorted([_num(v) for v in c.rect.vector_spec[:4]] + [c.rect.vector_spec[4], c.depth, bool(c.rect.fixed),
+                          sorted([k, _num(v)] for k, v in c.alloc.items())] for c in al.allocations)
+        return ["ok", must, cells2(a1), cells2(a2)], None
     if kind == "sat":
         from tools.rect.satmanager import SATManager
         from tools.rect.pseudobool import Expr
@@ -290,7 +323,21 @@ def run_legal(d: dict):
         import legal_common  # provided by the C09 harness when present
     except Exception:
         return ["legal", "unavailable"]
-    return legal_common.build_digest(d)
+    # ONE model construction per probe (a second one in the same process would itself be "history")
+    try:
+        b = legal_common.Built(d["netlist"], float(d["W"]), float(d["H"]), float(d.get("max_ratio", 2.0)), reset_epsilon=False)
+        try:
+            dig = ["utils " + legal_common.ser_utils(b.utils), "other-groups " + repr(sorted(b.other_groups.items()))] \
+                + sorted(legal_common.ser_eq(g, e) for g, e in b.eqs)
+            # the rest of what the built model exposes publicly: the variables its objective / undo() range over
+            w = b.model.gekko
+            names = [v.data["name"] for v in getattr(w, "variable_list", [])]
+            dig = dig + ["variable_list " + " ".join(sorted(names)), "n_constraint_groups %d" % len(getattr(w, "constraints", {}))]
+        finally:
+            legal_common.cleanup()
+    except AssertionError:
+        return ["rejected", "Assert"]
+    return dig
 
 
 def child(task):
@@ -414,6 +461,25 @@ def make_task(rng: random.Random, ctx: Ctx):
         hs = s * base ** rng.randint(-kmax, kmax)
         hk = rng.choice(KINDS)
         hist.append(GEN[hk](rng, hs, rng.random() < 0.25, L))
+    if kind in ("netlist", "alloc", "alloctext", "legal", "die") and rng.random() < 0.5:
+        # an earlier, DIFFERENT design that shares exact rectangle descriptors with the probe (same regular grid) but has
+        # other attributes: value-keyed caches / shared objects leak marks (fixed, roles, moved centres) through these
+        twin = json.loads(json.dumps(probe))
+        for key in ("text", "netlist"):
+            if key in twin and isinstance(twin[key], str):
+                t = twin[key]
+                if "{hard: true" in t and "{fixed: true" not in t:
+                    t = t.replace("{hard: true", "{fixed: true")
+                elif "hard: true" in t and rng.random() < 0.7:
+                    t = t.replace("hard: true", "fixed: true")
+                elif "fixed: true" in t:
+                    t = t.replace("fixed: true", "hard: true")
+                t = t.replace("area: ", "area: 1.5 * " if False else "area: ")
+                twin[key] = t
+        if "thr" in twin:
+            twin["thr"] = rng.choice([0.3, 0.6, 0.9])
+        twin.pop("proposal", None) if False else None
+        hist.insert(rng.randint(0, len(hist)), twin)
     if kind == "sat" and rng.random() < 0.6:
         # an earlier manager that encoded (some of) the very same constraints: shares ROBDD nodes with the probe
         twin = dict(probe)
